@@ -1,5 +1,6 @@
 import Exetera.Lemmas.DatesDays
 import Exetera.Lemmas.DatesPeriods
+import Exetera.Lemmas.DatesMap
 /-!
 # C20 — date helpers bucket timestamps into the day and the period that contain them
 
@@ -127,5 +128,66 @@ theorem get_periods_invalid {start end_ : Int} {period : String} {delta : Int}
   getPeriods_invalid h
 
 example : unitDays "month" = none := by decide
+
+/-! ## generate_period_offset_map -/
+
+/-- `offset_map_halfopen`: for ascending period boundaries `ps` (any number ≥ 1, repeated boundaries allowed) the map has one
+    entry per whole day between the first and the last boundary, and the entry of day `d` is the index `k` of *the* period whose
+    half-open interval of day offsets `[⌊(ps[k]−ps[0])/86400⌋, ⌊(ps[k+1]−ps[0])/86400⌋)` contains `d` (it exists and is unique). -/
+theorem offset_map_halfopen {ps : List Int} (hne : ps ≠ []) (hasc : Ascending ps) :
+    ∃ m first last, ps.head? = some first ∧ ps.getLast? = some last ∧ offsetMap ps = .ok m ∧
+      (m.length : Int) = (last - first) / 86400 ∧
+      ∀ d : Nat, d < m.length → ∃ k : Nat, m[d]? = some (k : Int) ∧
+        InPeriod (ps.map (fun p => (p - first) / 86400)) k d ∧
+        ∀ k', InPeriod (ps.map (fun p => (p - first) / 86400)) k' d → k' = k := by
+  cases ps with
+  | nil => exact absurd rfl hne
+  | cons p0 rest =>
+    obtain ⟨m, l, hl, hm, hlen, hget⟩ := offsetMap_spec p0 rest hasc
+    refine ⟨m, p0, l, rfl, hl, hm, hlen, ?_⟩
+    intro d hd
+    obtain ⟨k, hk, hin⟩ := hget d hd
+    have hpd : periodDeltas (p0 :: rest) = (p0 :: rest).map (fun p => (p - p0) / 86400) := rfl
+    rw [hpd] at hin
+    refine ⟨k, hk, hin, fun k' hk' => ?_⟩
+    have hasc' := periodDeltas_ascending hasc
+    rw [hpd] at hasc'
+    exact inPeriod_unique hasc' hk' hin
+
+example : offsetMap [432000, 1036800, 1641600, 2246400] =
+    .ok [0, 0, 0, 0, 0, 0, 0, 1, 1, 1, 1, 1, 1, 1, 2, 2, 2, 2, 2, 2, 2] := by rfl
+example : Ascending [432000, 1036800, 1641600, 2246400] := by unfold Ascending; decide
+
+/-! ## get_period_offsets -/
+
+/-- `period_offsets_eq`: with an `in_range` array (`bool`, or `int8` where non-zero means in range) of the right length, if every
+    in-range day lies inside the map then the call returns, and row `i` gets the map entry of its day when it is in range and
+    −1 when it is not. (No condition at all is put on the out-of-range rows or on the map: it may be empty.) -/
+theorem period_offsets_eq (pbd days inr : List Int) (hlen : inr.length = days.length)
+    (hin : ∀ (i : Nat) (d : Int), days[i]? = some d → keeps inr[i]? = true → 0 ≤ d ∧ d < pbd.length) :
+    ∃ out, getPeriodOffsets pbd days (some inr) = .ok out ∧ out.length = days.length ∧
+      ∀ (i : Nat) (d : Int), days[i]? = some d →
+        out[i]? = if keeps inr[i]? = true then pbd[d.toNat]? else some (-1) := by
+  have hk : ∀ i : Nat, (inr.map (fun v => v != 0))[i]? = some true ↔ keeps inr[i]? = true := fun i => mask_true_iff inr i
+  obtain ⟨out, ho, hl, hg⟩ := lookupMasked_spec pbd days (inr.map (fun v => v != 0)) (by simpa using hlen)
+    (fun i d h1 h2 => hin i d h1 ((hk i).mp h2))
+  refine ⟨out, ho, hl, ?_⟩
+  intro i d hd
+  rw [hg i d hd]
+  by_cases h : keeps inr[i]? = true
+  · rw [if_pos h, if_pos ((hk i).mpr h)]
+  · rw [if_neg h, if_neg (fun h' => h ((hk i).mp h'))]
+
+example : getPeriodOffsets [] [3, 5] (some [0, 0]) = .ok [-1, -1] := by rfl
+example : getPeriodOffsets [0, 0, 0, 1, 1, 1, 2] [0, 3, 6, 7, -1] (some [1, 2, 1, 0, 0]) = .ok [0, 1, 2, -1, -1] := by rfl
+
+/-- without `in_range`: if every day lies inside the map, row `i` gets the map entry of its day. -/
+theorem period_offsets_all (pbd days : List Int)
+    (hin : ∀ (i : Nat) (d : Int), days[i]? = some d → 0 ≤ d ∧ d < pbd.length) :
+    ∃ out, getPeriodOffsets pbd days none = .ok out ∧ out.length = days.length ∧
+      ∀ (i : Nat) (d : Int), days[i]? = some d → out[i]? = pbd[d.toNat]? :=
+  lookupAll_spec pbd days hin
+
+example : getPeriodOffsets [0, 0, 0, 1, 1, 1, 2] [3, 6, 0] none = .ok [1, 2, 0] := by rfl
 
 end Exetera.Props.C20
